@@ -93,6 +93,10 @@ func (e *Engine) generate(cfg RunConfig) []string {
 			e.errors = append(e.errors, "no contract for "+k)
 			continue
 		}
+		if con.Unverified != "" && len(cfg.Funcs) == 0 {
+			e.noteAssumption("assumed contract of " + k + " (in-repo function, body not verified: " + con.Unverified + ")")
+			continue
+		}
 		fn := e.funcsByK[k]
 		if fn == nil {
 			e.errors = append(e.errors, "contract for unknown function "+k+" ("+con.File+")")
